@@ -722,7 +722,7 @@ func (ex *Exec) bytesEq(p, q []Value) Value {
 			return false
 		}
 	}
-	return mkBool(Eq(bvOfBytes(p), bvOfBytes(q)))
+	return mkBool(ex.bytesEqTerm(p, q))
 }
 
 // ---------- registration ----------
